@@ -12,7 +12,7 @@
     check); /repo commit 432fa0a repaired the code, the model follows the code,
     and the theorem below no longer has that guard. *)
 From InvokeVerif Require Import Model.CollModel Spec.C17Spec Corr.C17Corr Proofs.C17_path
-     Proofs.C10_build Proofs.C17_built.
+     Proofs.C10_build Proofs.C17_built Proofs.C17_spelling.
 
 (** Flagship.  For EVERY built tree [c] and EVERY name, what the model of
     [Collection.task_with_config] returns is accepted by the executable
@@ -42,6 +42,17 @@ Theorem C17_path_deep_merge_built : forall script c name,
   names_plain script = true -> build script = Ok c ->
   C17Spec.spec_ok c name (model_obs c name) = true.
 Proof. exact built_meets_spec. Qed.
+
+(** "Whichever name ... the task was invoked by" also covers spellings: two
+    names whose segments normalise alike (the specification's own
+    [norm_name], proved equal to the implementation's transform) get the same
+    task and the same configuration from the model, on every tree. *)
+Theorem C17_spelling_invariant : forall c a b,
+  same_spelling a b = true -> model_obs c a = model_obs c b.
+Proof. exact spelling_invariance. Qed.
+
+Theorem C17_norm_is_transform : forall ad n, norm_name ad n = transform ad n.
+Proof. exact norm_name_transform. Qed.
 
 (** The same in Prop form, without the executable wrapper. *)
 Theorem C17_setting_from_outermost : forall c name t cfgs,
